@@ -1,5 +1,6 @@
 import AgVerif.Model.Proto
 import AgVerif.Model.Order
+import AgVerif.Model.Intervals
 open AgVerif AgVerif.Proto AgVerif.Order
 
 /-- "1,2,3" → [1,2,3]; "-" → [] -/
@@ -74,6 +75,15 @@ def handle (line : String) : String :=
   | ["post", es, entry] => match pairs ">" es, entry.toNat? with
     | some es, some entry => showCsv (postOrder (sucsOf es) entry (4 * es.length + 8))
     | _, _ => "bad-op"
+  | ["intv", es, nodes, entry] => match pairs ">" es, csv nodes, entry.toNat? with
+    | some es, some nodes, some entry =>
+      -- rooted graph: `graph.rpo` is the reverse post order (model `postOrder`, tied by stream site-post)
+      let order := ((postOrder (sucsOf es) entry (4 * es.length + 8)).reverse).drop 1
+      let preds := fun n => (es.filter (fun e => e.2 == n)).map Prod.fst
+      (match Intervals.intervals preds order nodes entry with
+       | some r => ";".intercalate (r.map fun p => toString p.1 ++ ":" ++ ".".intercalate (p.2.map toString))
+       | none => "fuel")
+    | _, _, _ => "bad-op"
   | _ => "bad-op"
 
 def main : IO Unit := runMain handle
